@@ -233,6 +233,15 @@ pcf_close(struct pcf *pcf)
 	write_colors(pcf->f, pcf_palette, pcf_palette_len);
 	write_types(pcf);
 
-	fclose(pcf->f);
+	int bad = ferror(pcf->f);
+
+	if (fclose(pcf->f) != 0)
+		bad = 1;
+
+	if (bad) {
+		err("error writing the PCF file:");
+		return -1;
+	}
+
 	return 0;
 }
